@@ -2,7 +2,7 @@
    each followed by Print Assumptions; Examples show that hypotheses are satisfiable. *)
 From Coq Require Import ZArith List Bool PArith String.
 From Coq Require Import Sorting.Permutation.
-From C08 Require Import Model Proofs ProofsKind ProofsTrans ProofsTrans2 ProofsUnion ProofsMeet ProofsMeetComm ProofsJoin ProofsFuel ProofsKey ProofsF2 ProofsF2Sound ProofsF2Comp ProofsF2Eq ProofsF2Trans ProofsF2Union ProofsF2Meet ProofsF2MeetComm Statement.
+From C08 Require Import Model Proofs ProofsKind ProofsTrans ProofsTrans2 ProofsUnion ProofsMeet ProofsMeetComm ProofsJoin ProofsFuel ProofsKey ProofsF2 ProofsF2Sound ProofsF2Comp ProofsF2Eq ProofsF2Trans ProofsF2Union ProofsF2Meet ProofsF2MeetComm ProofsGuard Statement.
 From Gen Require Import SubtypeKind.
 Import ListNotations.
 
@@ -287,6 +287,40 @@ Proof.
 Qed.
 Print Assumptions meet_comm_equiv_F2.
 
+(* ---- guarded laws: ONE decidable guard, defined on the whole type language and on every class table (Model.trans_guard,
+   Model.meet_guard), replaces all hypotheses.  The harness evaluates the extracted guards on the real class table and on
+   every triple / pair of the law search: evidence reports how often they hold and that no counterexample satisfies them.
+   trans_guard ct a b c = table hypotheses && each of a, b, c is in F2 and outside the refuted family X2. *)
+Theorem subtype_trans_guarded : forall ct a b c, trans_guard ct a b c = true ->
+  (forall n m, is_subtype ct n a b = Some true -> is_subtype ct m b c = Some true ->
+     forall q y, is_subtype ct q a c = Some y -> y = true) /\
+  (forall n m, sub ct no_cache n K_proper_np a b = Some true -> sub ct no_cache m K_proper_np b c = Some true ->
+     forall q y, sub ct no_cache q K_proper_np a c = Some y -> y = true).
+Proof. exact trans_guarded_entry. Qed.
+Print Assumptions subtype_trans_guarded.
+
+(* the witness of subtype_trans_refuted is excluded by the guard, through lits_ok (family X2), on a table that satisfies
+   the table part of the guard *)
+Theorem subtype_trans_guard_excludes_witness :
+  trans_guard refute_ct r_a r_b r_c = false /\ lits_ok refute_ct r_c = false /\ table_guard refute_ct = true.
+Proof. exact trans_witness_outside_guard. Qed.
+Print Assumptions subtype_trans_guard_excludes_witness.
+
+(* meet_guard ct s t = table hypotheses && s, t in F2 outside X2 and outside X3 (no invariant/contravariant parameter, the
+   family of meet_lower_refuted).  The meet satisfies the guard again and is below both arguments ... *)
+Theorem meet_lower_guarded : forall ct s t, meet_guard ct s t = true ->
+  forall n x, meet_types ct n s t = Some x ->
+  meet_guard ct x x = true /\ forall m y, (is_subtype ct m x s = Some y -> y = true) /\ (is_subtype ct m x t = Some y -> y = true).
+Proof. exact meet_lower_guarded_l. Qed.
+Print Assumptions meet_lower_guarded.
+
+(* ... and the two argument orders give equivalent types *)
+Theorem meet_comm_equiv_guarded : forall ct s t, meet_guard ct s t = true ->
+  forall n x y, meet_types ct n s t = Some x -> meet_types ct n t s = Some y ->
+  forall m b, (is_subtype ct m x y = Some b -> b = true) /\ (is_subtype ct m y x = Some b -> b = true).
+Proof. exact meet_comm_guarded_l. Qed.
+Print Assumptions meet_comm_equiv_guarded.
+
 (* answers on F2 only depend on the Type.__eq__ classes of the two types (UnionType.__eq__ = set equality of items) *)
 Theorem eq_invariant_F2 : forall ct, wf_ct ct = true ->
   forall k l r l' r', k_notparams k = false -> kind_ok k = true ->
@@ -372,6 +406,13 @@ Example ex_F2_bool : wf_contr ex_ct = true
   /\ is_subtype ex_ct 10%nat (TInst 5 []) (TUnion [TLit 5 1%Z; TLit 5 0%Z]) = Some true
   /\ is_subtype ex_ct 10%nat (TUnion [TLit 5 1%Z; TLit 5 0%Z]) (TUnion [TInst 2 []; TNone]) = Some true
   /\ is_subtype ex_ct 10%nat (TInst 5 []) (TUnion [TInst 2 []; TNone]) = Some true.
+Proof. vm_compute. repeat split; reflexivity. Qed.
+(* the guards are satisfiable on non-trivial inputs (generic instances, bool literals, promotion) *)
+Example ex_guards :
+  trans_guard ex_ct (TInst 7 [TLit 2 1%Z]) (TInst 6 [TInst 2 []]) (TInst 6 [TUnion [TInst 3 []; TNone]]) = true
+  /\ trans_guard ex_ct (TInst 5 []) (TUnion [TLit 5 1%Z; TLit 5 0%Z]) (TUnion [TInst 2 []; TNone]) = true
+  /\ meet_guard ex_ct (TInst 6 [TInst 2 []]) (TUnion [TInst 6 [TInst 3 []]; TNone]) = true
+  /\ trans_guard ex_ct (TInst 5 []) TAny (TInst 2 []) = false.
 Proof. vm_compute. repeat split; reflexivity. Qed.
 (* a sound, non-empty cache and an admissible op sequence with a hit *)
 Example ex_ops_ok : Forall op_ok [Query K_sub (TInst 5 []) (TInst 3 []); Reset; Query K_sub (TInst 5 []) (TInst 3 []);
